@@ -268,6 +268,24 @@ def concat(ctx):
   ctx.ob('CONCAT/redundancy', fi, last, ok, 'result goes through remove_redundant_data' if ok else 'result is not de-duplicated')
   # comparator in remove_redundant_data
   rr = ctx.func(SL + ':remove_redundant_data')
+  # sibling idiom: an explicit table (container, value fields) compared field by field - every field of the event
+  # type other than its time must be listed, or events that differ only in an unlisted field are dropped as repeats
+  tab = next((n for n in ast.walk(rr.node) if isinstance(n, ast.For) and isinstance(n.iter, (ast.List, ast.Tuple)) and n.iter.elts and
+              all(isinstance(e, ast.Tuple) and len(e.elts) == 2 and isinstance(e.elts[0], ast.Attribute) and isinstance(e.elts[1], (ast.Tuple, ast.List)) for e in n.iter.elts)), None)
+  if tab is not None:
+    ns = ctx.S.msg('NoteSequence')
+    for e in tab.iter.elts:
+      cont = e.elts[0].attr
+      f = ns.fields.get(cont) if ns else None
+      ctx.require(f is not None and f.kind == 'message', 'remove_redundant_data: %s is not a message field of NoteSequence' % cont)
+      m = ctx.S.msg(f.type)
+      want = sorted(k for k in m.fields if k != 'time')
+      got = sorted(x.value for x in e.elts[1].elts if isinstance(x, ast.Constant))
+      ok = got == want
+      ctx.ob('CONCAT/cmp-all-fields', rr, e, ok, '%s events are compared in all their value fields %s' % (cont, want) if ok else
+             '%s events are compared in %s only; the event type has the value fields %s, so an event differing only in %s is dropped as a repeat' % (
+                 cont, got, want, sorted(set(want) - set(got))), construct='remove_redundant_data: %s compared in all value fields' % cont)
+    return
   rr = Canon(rr, roles.discover(rr, {
       'events': lambda fn: [n.target.id for n in ast.walk(fn) if isinstance(n, ast.For) and isinstance(n.iter, ast.List) and isinstance(n.target, ast.Name)],
       'i': lambda fn: [n.target.id for n in ast.walk(fn) if isinstance(n, ast.For) and isinstance(n.iter, ast.Call) and dotted(n.iter.func) == 'range' and isinstance(n.target, ast.Name)],
@@ -353,6 +371,12 @@ def repeat(ctx):
 
 
 MUTANTS = [
+    Mutant('seed C13_d: repeats detected from a field table that forgets KeySignature.mode', F,
+           "  for events in [\n      fixed_sequence.time_signatures, fixed_sequence.key_signatures,\n      fixed_sequence.tempos\n  ]:", "  for events, value_fields in [\n      (fixed_sequence.time_signatures, ('numerator', 'denominator')),\n      (fixed_sequence.key_signatures, ('key',)),\n      (fixed_sequence.tempos, ('qpm',))\n  ]:", rule='CONCAT/cmp-all-fields',
+           also=[(F, "      tmp_ts = copy.deepcopy(events[i])\n      tmp_ts.time = events[i - 1].time\n", ""), (F, "      if tmp_ts == events[i - 1]:", "      if all(getattr(events[i], field) == getattr(events[i - 1], field) for field in value_fields):")]),
+    Mutant('the same refactoring with complete field lists (harmless)', F,
+           "  for events in [\n      fixed_sequence.time_signatures, fixed_sequence.key_signatures,\n      fixed_sequence.tempos\n  ]:", "  for events, value_fields in [\n      (fixed_sequence.time_signatures, ('numerator', 'denominator')),\n      (fixed_sequence.key_signatures, ('key', 'mode')),\n      (fixed_sequence.tempos, ('qpm',))\n  ]:", expect='silent',
+           also=[(F, "      tmp_ts = copy.deepcopy(events[i])\n      tmp_ts.time = events[i - 1].time\n", ""), (F, "      if tmp_ts == events[i - 1]:", "      if all(getattr(events[i], field) == getattr(events[i - 1], field) for field in value_fields):")]),
     Mutant('seed C13_b: the original event time is tested for negativity, the mapped one is stored', F, "    time = time_func(event.time)\n    if time < 0:", "    time = time_func(event.time)\n    if event.time < 0:", rule='ADJUST/event-negative'),
     Mutant('the event store precedes the check', F, "    time = time_func(event.time)\n    if time < 0:", "    time = time_func(event.time)\n    event.time = time\n    if time < 0:", rule='ADJUST/event-negative'),
     Mutant('shift: pitch_bends dropped from the chain', F, '      shifted.pitch_bends, shifted.control_changes, shifted.text_annotations,\n      shifted.section_annotations',
